@@ -7,6 +7,8 @@ mod dirgen;
 mod c04;
 mod c08;
 mod cpdec;
+mod c10;
+mod c11;
 mod c12;
 mod c13;
 mod c15;
@@ -68,6 +70,8 @@ fn main() {
         "c04" => c04::run(&mut ctx),
         "c15" => c15::run(&mut ctx),
         "c08" => c08::run(&mut ctx),
+        "c10" => c10::run(&mut ctx),
+        "c11" => c11::run(&mut ctx),
         "c12" => c12::run(&mut ctx),
         _ => {
             eprintln!("unknown property {prop}");
